@@ -347,6 +347,16 @@ Proof.
   destruct i, idI, cR, cI; try (destruct df, dfm); try (destruct dn); fin.
 Qed.
 
+(* what an earlier step recorded as filled (bits 4, 5) is still recorded after an interpolation *)
+Lemma F_int_keeps : forall i idI cR cI d m, inv_b m = true ->
+  implb (rest_b cR cI m && (idI || cI))
+        (Z.land (Z.land m 48) (r_interp i false d m) =? Z.land m 48) = true.
+Proof.
+  intros i idI cR cI [dr dx dl df dfm dn dg].
+  unfold r_interp, r_mc_occl, r_mc_mism, r_sgm_mism, r_sgm_occl, r_border. cbn [d_fill d_fillm d_near d_left].
+  destruct i, idI, cR, cI; try (destruct df, dfm); try (destruct dn); try (destruct dl); fin.
+Qed.
+
 Lemma F_mfi : forall cR cI d m, inv_b m = true ->
   implb (rest_b cR cI m) (pinv_b cR cI (r_mfi d m) && (Z.ldiff (r_mfi d m) 2048 =? Z.ldiff m 2048)) = true.
 Proof.
